@@ -30,6 +30,14 @@ def main():
             continue
         open('/verif/mutants/%s.patch' % m['name'], 'w').write(diff)
         index.append(dict(name=m['name'], props=m['props'], kind=m.get('kind', 'break'), note=m.get('note', '')))
+    # entries made by tools/mkderived.sh (not described by a spec) are kept
+    names = {m['name'] for m in index}
+    try:
+        for m in json.load(open('/verif/mutants/index.json')):
+            if m['name'] not in names and m.get('note', '').startswith('breaking edit on top of') and os.path.exists('/verif/mutants/%s.patch' % m['name']):
+                index.append(m)
+    except FileNotFoundError:
+        pass
     json.dump(index, open('/verif/mutants/index.json', 'w'), indent=1)
     print(len(index), 'mutants written')
 
